@@ -331,6 +331,60 @@ def finish(prop, tier, seed, t0, level, m, rule, assumptions, min_nontrivial=2, 
 
 
 # --------------------------------------------------------------------------------------------
+# Miri leg (auxiliary sanitizer, thorough tier of C04 / C07)
+# --------------------------------------------------------------------------------------------
+
+def miri_leg(n_programs=32, shards=16, timeout=1500):
+    """Run `sv mirileg` (a small slice of the C04/C07/C02 workload) under Miri in `shards` parallel
+    processes. Returns (judged, findings, inconclusive_notes). Undefined behaviour reported by Miri
+    is a finding; a build problem or a timeout is inconclusive."""
+    env = cargo_env()
+    env["CARGO_TARGET_DIR"] = os.path.join(TARGET, "miri")
+    env["MIRIFLAGS"] = "-Zmiri-disable-isolation"
+    src = os.path.join(ROOT, "harness")
+    if os.path.realpath(REPO) != "/repo":
+        src = os.path.join(TARGET, "harness-src")
+    notes, findings, judged = [], [], 0
+    with _Lock(".miri.lock"):
+        # first shard alone (builds the Miri sysroot / crate), then the rest in parallel
+        def run(k):
+            return subprocess.run(["cargo", "+nightly", "miri", "run", "--offline", "--", "mirileg", str(k), str(shards), str(n_programs)],
+                                  cwd=src, env=env, capture_output=True, text=True, timeout=timeout)
+        try:
+            first = run(0)
+        except subprocess.TimeoutExpired:
+            return 0, [], ["miri: timeout on first shard"]
+        results = [first]
+        if first.returncode not in (0, 1) and "MIRILEG" not in first.stdout:
+            return 0, [], ["miri: could not run (" + first.stderr.strip().splitlines()[-1][:200] + ")" if first.stderr.strip() else "miri: could not run"]
+        import concurrent.futures
+        with concurrent.futures.ThreadPoolExecutor(max_workers=shards) as ex:
+            futs = [ex.submit(run, k) for k in range(1, shards)]
+            for f in futs:
+                try:
+                    results.append(f.result())
+                except subprocess.TimeoutExpired:
+                    notes.append("miri: shard timeout")
+    import re
+    for r in results:
+        m = re.search(r"MIRILEG judged=(\d+) findings=(\d+)", r.stdout)
+        if m:
+            judged += int(m.group(1))
+        if "Undefined Behavior" in r.stderr or "error: unsupported operation" in r.stderr:
+            line = [l for l in r.stderr.splitlines() if "Undefined Behavior" in l or "unsupported operation" in l][0]
+            if "unsupported operation" in line:
+                notes.append("miri: " + line.strip()[:200])
+            else:
+                findings.append({"oracle": "miri", "signature": "miri:undefined-behaviour", "detail": r.stderr[-1500:], "case": {"cmd": "sv mirileg"}})
+        for l in r.stdout.splitlines():
+            if l.startswith("MIRILEG-FINDING"):
+                findings.append({"oracle": "miri-leg", "signature": "miri-leg:oracle", "detail": l, "case": {"cmd": "sv mirileg"}})
+        if not m and r.returncode != 0 and "Undefined Behavior" not in r.stderr:
+            notes.append("miri: shard ended without summary (exit %s)" % r.returncode)
+    return judged, findings, notes
+
+
+# --------------------------------------------------------------------------------------------
 # dispatch
 # --------------------------------------------------------------------------------------------
 
@@ -424,7 +478,15 @@ def run_check(prop, tier, seed, t0):
             m["counters"]["dbgassert_profile.evaluations"] = m2.get("evaluations", 0)
             for k, v in m2.get("per_signature", {}).items():
                 m["per_signature"][k] = m["per_signature"].get(k, 0) + v
-        return finish(prop, tier, seed, t0, level, m, rule, COMMON_ASSUMPTIONS)
+        extra = None
+        if tier == "thorough" and prop in ("C04", "C07") and os.environ.get("SV_NO_MIRI") != "1":
+            judged, mf, notes = miri_leg()
+            m["findings"].extend(mf)
+            m["inconclusive_notes"].extend(notes)
+            m["inconclusive"] += len(notes)
+            extra = {"miri_leg": {"evaluations_under_miri": judged, "findings": len(mf), "notes": notes,
+                                  "what": "16 sharded `cargo +nightly miri run -- mirileg` processes: string-literal rewriting in 3 positions x 4 quote styles and small generated programs with parse + normal-form oracles, checked for undefined behaviour by Miri"}}
+        return finish(prop, tier, seed, t0, level, m, rule, COMMON_ASSUMPTIONS, extra_cov=extra)
     if prop in CLI_PROPS:
         # CLI monitors: Python modules cli/cNN.py with META, run(tier, seed) and replay(case)
         import importlib
